@@ -346,6 +346,22 @@ impl<B> Call<WithBody, B> {
         Ok(())
     }
 
+    /// Proceed to receiving a response without sending the body.
+    ///
+    /// This is for expect-100-continue where the server responds with something
+    /// else than 100. The body is not sent.
+    pub(crate) fn into_receive_skip_body(self) -> Call<RecvResponse, B> {
+        Call {
+            request: self.request,
+            analyzed: self.analyzed,
+            state: BodyState {
+                phase: Phase::RecvResponse,
+                ..self.state
+            },
+            _ph: PhantomData,
+        }
+    }
+
     pub(crate) fn is_prelude(&self) -> bool {
         self.state.phase.is_prelude()
     }
